@@ -185,6 +185,29 @@ def r22(ctx: Ctx) -> RuleReport:
         rep.add(f'{fi.fq}: every path to the store passed `{p} is None` or `{p} in self.variables()`', fi.loc(nd.ast),
                 'violation' if reached else 'ok',
                 'the store is reachable without either test having succeeded' if reached else '')
+    # every normal return of the setter went through the store (skipping it is only harmless when the value equals the stored one)
+    same = {(f'{p} == self._top', True), (f'{p} is self._top', True), (f'self._top == {p}', True), (f'self._top is {p}', True),
+            (f'{p} != self._top', False), (f'{p} is not self._top', False)}
+    store_ids = {nd.id for nd in stores}
+    seen, stack, skipped = set(), [(cfg.entry, [])], None
+    while stack:
+        n, path = stack.pop()
+        if n in seen or n in store_ids:
+            continue
+        seen.add(n)
+        if n == cfg.exit:
+            skipped = path
+            break
+        node = cfg.nodes[n]
+        for m, lab in cfg.succ[n]:
+            if lab == 'exc' or m == cfg.rexit:
+                continue
+            if node.kind == 'cond' and (norm(node.ast), lab == 'T') in same:
+                continue
+            stack.append((m, path + ([f'{norm(node.ast)[:40]} is {lab}'] if node.kind == 'cond' else [])))
+    rep.add(f'{fi.fq}: every normal return stored the value', fi.loc(), 'violation' if skipped is not None else 'ok',
+            (f'the setter can return without storing the value ({"; ".join(skipped) or "unconditionally"}): the graph keeps its old explicit top '
+             f'(or stays with an implicit top that moves when the first triple changes)') if skipped is not None else '')
     raises = [n for n in walk_local(fi.node) if isinstance(n, ast.Raise) and isinstance(n.exc, ast.Call)]
     rep.add(f'{fi.fq}: refusal raises GraphError', fi.loc(), 'ok' if any(norm(r.exc.func) == 'GraphError' for r in raises) else 'undecided')
     # the variables() used is sources + explicit top
@@ -334,13 +357,102 @@ def _body_order_insensitive(stmts, elem_names: Set[str]) -> Optional[str]:
 ORDER_FREE_CONSUMERS = {'set', 'frozenset', 'sorted', 'sum', 'any', 'all', 'len', 'min', 'max'}
 
 
+def _worklist_closure(ctx: Ctx, fi: FuncInfo, pm, node, it, kind) -> Optional[str]:
+    """The iteration only feeds a local work-list of a closure computation whose result is a set: visiting order is unobservable.
+    Shape required (checked on the syntax, names free): L.extend(<this iteration>) / for x in S: L.append(x); every other use of L is its
+    creation, `while L`, L.pop(..), L.append/extend; the `while L` body has no break/return and is, apart from the L operations and the
+    binding `cur = L.pop()`, order-insensitive (set adds under membership tests); every return of the function returns a set-typed name."""
+    cons = None
+    if kind == 'comp':
+        par = pm.get(id(node))
+        if isinstance(par, ast.Call) and isinstance(par.func, ast.Attribute) and par.func.attr == 'extend' and isinstance(par.func.value, ast.Name):
+            cons = par.func.value.id
+    elif kind == 'extend' and isinstance(node.func.value, ast.Name):
+        cons = node.func.value.id
+    elif kind == 'for':
+        apps = [x for x in ast.walk(node) if isinstance(x, ast.Call) and isinstance(x.func, ast.Attribute) and x.func.attr == 'append' and isinstance(x.func.value, ast.Name)]
+        rest = _body_order_insensitive([st for st in node.body if not (isinstance(st, ast.Expr) and st.value in apps)], set())
+        if len({a.func.value.id for a in apps}) == 1 and rest is None:
+            cons = apps[0].func.value.id
+    if cons is None:
+        return None
+    L = cons
+    loops = []
+    for x in walk_local(fi.node):
+        if isinstance(x, ast.Name) and x.id == L:
+            p = pm.get(id(x))
+            pp = pm.get(id(p)) if p is not None else None
+            if isinstance(p, (ast.Assign, ast.AnnAssign)) and isinstance(x.ctx, ast.Store):
+                continue
+            if isinstance(p, ast.While) and p.test is x:
+                loops.append(p)
+                continue
+            if isinstance(p, ast.Attribute) and p.attr in ('pop', 'append', 'extend', 'popleft') and isinstance(pp, ast.Call) and pp.func is p:
+                continue
+            return None
+    if len(loops) != 1:
+        return None
+    loop = loops[0]
+    if any(isinstance(x, (ast.Break, ast.Return)) for x in ast.walk(loop)) or loop.orelse:
+        return None
+
+    def l_op(st):
+        v = st.value if isinstance(st, (ast.Expr, ast.Assign)) else None
+        return isinstance(v, ast.Call) and isinstance(v.func, ast.Attribute) and isinstance(v.func.value, ast.Name) and v.func.value.id == L
+
+    def strip(stmts):
+        out = []
+        for st in stmts:
+            if l_op(st):
+                continue
+            if isinstance(st, ast.If):
+                st2 = ast.If(test=st.test, body=strip(st.body) or [ast.Pass()], orelse=strip(st.orelse))
+                out.append(st2)
+            else:
+                out.append(st)
+        return out
+    if _body_order_insensitive(strip(loop.body), set()) is not None:
+        return None
+    rets = [r for r in walk_local(fi.node) if isinstance(r, ast.Return)]
+    if not rets or not all(r.value is not None and isinstance(r.value, ast.Name) and _is_set_typed(ctx, fi, r.value) for r in rets):
+        return None
+    return f'the iteration only feeds the work-list `{L}` of a closure whose result is the set `{norm(rets[0].value)}`: visiting order is not observable'
+
+
+def _symmetric_closure(ctx: Ctx, fi: FuncInfo, pm, node, it, kind) -> Optional[str]:
+    """for k, vs in D.items(): for v in vs: [if v not in D: D[v] = set()]; D[v].add(k)  -- makes a relation symmetric; the only ordered effect is
+    the key order of the local dict D, which is harmless when D is otherwise only indexed / tested for membership."""
+    if kind != 'for' or not isinstance(it, ast.Name):
+        return None
+    outer = pm.get(id(node))
+    if not (isinstance(outer, ast.For) and isinstance(outer.iter, ast.Call) and isinstance(outer.iter.func, ast.Attribute) and outer.iter.func.attr == 'items'
+            and isinstance(outer.iter.func.value, ast.Name) and isinstance(outer.target, ast.Tuple) and len(outer.target.elts) == 2
+            and norm(outer.target.elts[1]) == it.id and len(outer.body) == 1):
+        return None
+    D, k = outer.iter.func.value.id, norm(outer.target.elts[0])
+    v = norm(node.target)
+    for st in node.body:
+        src = norm(st)
+        if src == f'{D}[{v}].add({k})':
+            continue
+        if isinstance(st, ast.If) and norm(st.test) == f'{v} not in {D}' and not st.orelse and [norm(x) for x in st.body] == [f'{D}[{v}] = set()']:
+            continue
+        return None
+    # D must not be iterated anywhere else in the function
+    for x in walk_local(fi.node):
+        if isinstance(x, (ast.For, ast.comprehension)) and x is not outer:
+            itx = x.iter
+            whole = (isinstance(itx, ast.Name) and itx.id == D) or (
+                isinstance(itx, ast.Call) and ((isinstance(itx.func, ast.Attribute) and norm(itx.func.value) == D and itx.func.attr in ('items', 'keys', 'values', 'copy'))
+                                               or any(isinstance(a, ast.Name) and a.id == D for a in itx.args)))
+            if whole:
+                return None
+    return f'symmetric closure of the local relation `{D}`: only its key order depends on the visiting order, and `{D}` is indexed / tested for membership only'
+
+
 @rule('R13', 'no iteration order of a set reaches an ordered result (hash-seed independence)')
 def r13(ctx: Ctx) -> RuleReport:
     rep = RuleReport('R13', r13.title, floor=3)
-    frozen = {
-        ('penman.model:_dfs', 'for target in targets'): 'adjacency closure: q is local, indexed and tested for membership only; the result is the set `visited`',
-        ('penman.model:_dfs', 'generator over q.get(cur, [])'): 'work-list order only changes the visiting order; the result is the set `visited`',
-    }
     n_sets = 0
     for fi in ctx.repo.all_functions():
         pm = None
@@ -375,12 +487,8 @@ def r13(ctx: Ctx) -> RuleReport:
                 verdict, msg = _classify_set_iteration(ctx, fi, pm, node, it, kind)
                 fz = None
                 if verdict == 'violation':
-                    for (ffq, tag), reason in frozen.items():
-                        # keyed by module and construct so that moving the closure into a helper keeps the triage
-                        if ffq.split(':')[0] == fi.module.name and (
-                                (kind == 'for' and 'for target in targets' == tag and norm(it) == 'targets') or
-                                (kind in ('comp', 'extend', 'for') and 'q.get(cur' in norm(it) and 'generator' in tag)):
-                            fz = reason
+                    # triaged by the shape of the construct, not by names or text (a rename or q.get -> q[...] keeps the triage)
+                    fz = _worklist_closure(ctx, fi, pm, node, it, kind) or _symmetric_closure(ctx, fi, pm, node, it, kind)
                 if fz:
                     rep.exception(key, where, fz)
                 elif verdict == 'ok':
